@@ -48,7 +48,7 @@ def src_list():
 
 def tree_hash(extra):
     h = hashlib.sha256()
-    roots = [os.path.join(REPO, "src"), os.path.join(REPO, "include"), os.path.join(VERIF, "x")]
+    roots = [os.path.join(REPO, "src"), os.path.join(REPO, "include"), os.path.join(VERIF, "x"), os.path.join(VERIF, "mt")]
     files = []
     for r in roots:
         for d, _, fs in os.walk(r):
